@@ -270,6 +270,7 @@ func (c *FCtx) checkPost(e *Env, st *State, tag string, pos token.Pos) {
 				extra[rv.Name()] = TV{st.vars[rv], rv.Type()}
 			}
 		}
+		c.runAts(e, st, "return", extra)
 		if len(ct.Uses) > 0 {
 			se := c.specEnvFor(e, st, c.entry, extra)
 			for _, u := range ct.Uses {
@@ -285,6 +286,7 @@ func (c *FCtx) checkPost(e *Env, st *State, tag string, pos token.Pos) {
 			c.oblige(st, "post", fmt.Sprintf("post(%s)#%s", label, tag), pos, g, en.Text)
 		}
 	}
+	c.checkFrame(e, st, tag, pos)
 	c.protoExit(e, st, tag, pos)
 }
 
@@ -397,6 +399,78 @@ func (c *FCtx) specParam(p Param, st *State, pkg interface{}) TV {
 	}
 	c.Inputs[p.Name] = v
 	return TV{v, gty}
+}
+
+// runAts executes keyed ghost statements / assertions ("at call f#k", "at return", "at entry").
+func (c *FCtx) runAts(e *Env, st *State, where string, extra map[string]TV) {
+	if c.Contract == nil {
+		return
+	}
+	for _, at := range c.Contract.Ats {
+		if at.Where != where {
+			continue
+		}
+		for _, cl := range at.Clauses {
+			se := c.specEnvFor(e, st, c.entry, extra)
+			switch cl.Kind {
+			case "ghost":
+				c.ghostAssign(se, cl.Text, st)
+			case "assert":
+				g := se.evalBool(cl.Expr)
+				c.oblige(st, "assert", fmt.Sprintf("assert(%s @ %s)", cl.Label, where), token.NoPos, g, cl.Text)
+				st.assume(g)
+			case "assume":
+				c.noteAssumed(fmt.Sprintf("%s: assume at %s: %s", c.Name, where, cl.Text))
+				st.assume(se.evalBool(cl.Expr))
+			case "use":
+				c.applyUse(se, cl, st)
+			}
+		}
+	}
+}
+
+// ghostAssign: "x.g = expr" for a ghost field or "g = expr" for a ghost global.
+func (c *FCtx) ghostAssign(se *SpecEnv, text string, st *State) {
+	k := strings.Index(text, "=")
+	if k < 0 {
+		panic(specFail("bad ghost assignment: " + text))
+	}
+	lhs, err := parseSpec(strings.TrimSpace(text[:k]))
+	if err != nil {
+		panic(specFail(err.Error()))
+	}
+	rhs, err := parseSpec(strings.TrimSpace(text[k+1:]))
+	if err != nil {
+		panic(specFail(err.Error()))
+	}
+	v := se.evalTerm(rhs)
+	switch lhs.Kind {
+	case "sel":
+		obj := se.eval(lhs.Args[0])
+		owner := obj.T
+		if p, ok := owner.Underlying().(*types.Pointer); ok {
+			owner = p.Elem()
+		}
+		skey := structKey(owner)
+		for _, g := range c.W.Specs.Ghosts {
+			if g.PkgName+"."+g.Recv == skey && g.Name == lhs.Name {
+				srt, _ := c.specSort(g.Type)
+				key := "G$" + skey + "." + lhs.Name
+				arr := c.heapGet(st, key, SArr(SInt, srt))
+				c.heapSet(st, key, Store(arr, obj.V.(*Term), coerce(v, srt)))
+				return
+			}
+		}
+		panic(specFail("ghost assignment to non-ghost field " + lhs.Name))
+	case "id":
+		if gt, ok := c.W.Specs.GhostVars[lhs.Name]; ok {
+			srt, _ := c.specSort(gt)
+			arr := c.heapGet(st, "G$"+lhs.Name, SArr(SInt, srt))
+			c.heapSet(st, "G$"+lhs.Name, Store(arr, IntC(0), coerce(v, srt)))
+			return
+		}
+	}
+	panic(specFail("bad ghost assignment target: " + text))
 }
 
 // applyUse handles `use` hints: ext(a, b) instantiates byte-sequence extensionality.
